@@ -207,7 +207,7 @@ func checkMatchDispatch(r *Run, prog *Program, a *Anchors, pfx string) {
 							problems = append(problems, "different paths of one arm consult different matchers/arguments")
 						}
 						info.callee, info.args = ev.Callee.Name(), strings.Join(as, ",")
-						if ge, _ := matcherCallOperands(sm.St, &ev); ge == nil || ge.Key() != pExpr.Key() {
+						if ge, _ := matcherCallOperands(sm.St, &ev); ge == nil || !(ge.Key() == pExpr.Key() || partOfExpression(ge, pExpr)) {
 							problems = append(problems, "the matcher is not given this expression but "+info.args)
 						}
 						want := sc.m
@@ -537,4 +537,17 @@ func checkOperatorSpellings(r *Run, ga *GA, pfx string) {
 			r.Check(pfx+".operator-spelling", "spelling:"+sp, pos[sp], false, fmt.Sprintf("the grammar has an operator spelling %q (→ %s) that the documented language does not have", sp, got))
 		}
 	}
+}
+
+// partOfExpression: x is this expression's selector or literal (a matcher may be handed just the part it reads).
+func partOfExpression(x, pExpr *Sym) bool {
+	for _, f := range []string{"Selector", "Value"} {
+		if x.Key() == loadField(pExpr, f).Key() {
+			return true
+		}
+		if x.K == sField && x.Str == f && x.A != nil && x.A.K == sLoad && x.A.A != nil && x.A.A.Key() == pExpr.Key() {
+			return true
+		}
+	}
+	return false
 }
